@@ -98,6 +98,7 @@ type claimSt struct {
 	plan     claimPlan
 	nodes    map[string]bool // names of Node objects the kubelet created for instances of this claim
 	workload bool
+	lateDone bool
 }
 
 type hist struct {
@@ -946,6 +947,37 @@ func (x *exec) workloadStep(cs *claimSt) {
 	x.tr("workload of %d pod(s) bound to %s", len(cs.plan.Pods), node)
 }
 
+// latePodStep binds one more drainable pod to the (terminating) node of the claim.
+func (x *exec) latePodStep(cs *claimSt) {
+	nc := x.claim(cs.name)
+	if nc == nil || nc.Status.ProviderID == "" {
+		return
+	}
+	nodes := nodesWithProviderID(x.e.API.Raw, nc.Status.ProviderID)
+	if len(nodes) == 0 {
+		return
+	}
+	g := int64(30)
+	ps := podSpec{Name: fmt.Sprintf("c%d-late", cs.idx), Kind: "drainable", Grace: &g}
+	if cs.lateDone {
+		return
+	}
+	cs.lateDone = true
+	x.e.Apply(buildPod(ps, nodes[0].Name, x.e.Clock.Now()))
+	x.r.Inc("late_pods_bound_to_terminating_node")
+	st := "absent"
+	for _, c := range nc.Status.Conditions {
+		if c.Type == v1.ConditionTypeDrained {
+			st = string(c.Status)
+		}
+	}
+	x.r.Inc("late_pods_bound_while_drained_condition_is:" + st)
+	if st == "True" {
+		x.sig["late-pod-after-drained"] = true
+	}
+	x.tr("late pod %s bound to %s", ps.Name, nodes[0].Name)
+}
+
 func (x *exec) vanishStep(cs *claimSt) {
 	for _, in := range x.e.Provider.InstancesForUID(cs.uid) {
 		if in.State != "gone" {
@@ -1027,6 +1059,15 @@ func (x *exec) do(i int, st step) {
 		x.vanishStep(cs)
 	case "U":
 		x.unblockStep(st.Act)
+	case "P":
+		x.latePodStep(cs)
+	}
+	for _, c := range x.claims {
+		if c.plan.LateAfterDrained && !c.lateDone {
+			if nc := x.claim(c.name); nc != nil && condTrue(nc, v1.ConditionTypeDrained) {
+				x.latePodStep(c)
+			}
+		}
 	}
 	if x.nodeLifecycleActor() {
 		x.snapshotAll()
